@@ -199,27 +199,42 @@ def rule_eval(ctx, rep):
                      'eval_new_child does not "%s" - it disagrees with eval_tokens and the stated precedence rule' % exp,
                      loc(unit, ec.node))
     # append_child: nests only when parse_inner; first child appended directly
-    for inner, has_children in itertools.product((True, False), (True, False)):
-        p = mk_token(model, base, 'x', 1, inner)
-        c = mk_token(model, base, 'y', 1, True)
-        first = mk_token(model, base, 'y', 1, True)
+    # geometry: the new candidate c starts inside the closing delimiter of the previous sibling f (a conflict that must be
+    # resolved), or after f has ended (then appending it directly is as good as asking eval_new_child)
+    geo = {'conflict': {'x.start': 0, 'x.parse_start': 1, 'f.start': 2, 'f.parse_start': 3, 'f.parse_end': 4, 'c.start': 5,
+                        'c.parse_start': 6, 'f.end': 7, 'c.parse_end': 8, 'c.end': 9, 'x.parse_end': 10, 'x.end': 11},
+           'after': {'x.start': 0, 'x.parse_start': 1, 'f.start': 2, 'f.parse_start': 3, 'f.parse_end': 4, 'f.end': 5,
+                     'c.start': 6, 'c.parse_start': 7, 'c.parse_end': 8, 'c.end': 9, 'x.parse_end': 10, 'x.end': 11}}
+    for inner, has_children, where in itertools.product((True, False), (True, False), ('conflict', 'after')):
+        p = mk_token(model, geo[where], 'x', 1, inner)
+        c = mk_token(model, geo[where], 'c', 1, True)
+        first = mk_token(model, geo[where], 'f', 1, True)
         p.attrs['children'] = [first] if has_children else []
         it = Interp(model)
         it.reset_run(Oracle())
         called = []
         it.func_hooks[ec.qualname] = lambda interp, fi, args, kwargs: called.append((args[0], args[1])) or None
-        it.call(ac, [p, c], {})
+        try:
+            it.call(ac, [p, c], {})
+            raised = None
+        except Raised as e:
+            raised = e.exc.kind
         ch = p.attrs['children']
-        if not inner:
+        if raised:
+            ok = False
+        elif not inner:
             ok = ch == ([first] if has_children else []) and not called
         elif has_children:
-            ok = called == [(p, c)]
+            ok = called == [(p, c)] or (where == 'after' and not called and len(ch) == 2 and ch[0] is first and ch[1] is c)
         else:
             ok = len(ch) == 1 and ch[0] is c and not called
-        rep.obligation('R-EVAL', ok, {'function': 'ParseToken.append_child', 'parse_inner': inner, 'has_children': has_children})
+        rep.obligation('R-EVAL', ok, {'function': 'ParseToken.append_child', 'parse_inner': inner, 'has_children': has_children,
+                                      'new candidate': where, 'raised': raised})
         if not ok:
             rep.find('R-EVAL', 'span_tokenizer.ParseToken.append_child', 'row(parse_inner=%s,children=%s)' % (inner, has_children),
-                     'append_child does not nest exactly when parse_inner is set', loc(unit, ac.node))
+                     'append_child does not nest exactly when parse_inner is set, or takes a candidate that starts inside the '
+                     'closing delimiter of its previous sibling without resolving the conflict (%s%s)'
+                     % (where, ', raises %s' % raised if raised else ''), loc(unit, ac.node))
 
 
 class Poison(AbstractValue):
